@@ -159,6 +159,13 @@ class Verifier:
         comparisons of an unknown object with the same literal agree), others get one value each."""
         from .values import fresh_val, Val
         const = getattr(v, "const", None)
+        if const is None and v.esort == "int" and v.kind in ("bytes", "bytearray"):
+            # a byte string whose length and elements are all concrete (e.g. b"0" * 40) is a constant too
+            cl = v.const_len()
+            if cl is not None and cl <= 256:
+                vals = [z3.simplify(v.at(z3.IntVal(i))) for i in range(cl)]
+                if all(z3.is_int_value(x) and 0 <= x.as_long() <= 255 for x in vals):
+                    const = bytes(x.as_long() for x in vals)
         if const is not None:
             return z3.Const("bytes!" + const.hex(), Val)
         cached = getattr(v, "_val", None)
@@ -400,6 +407,9 @@ class Verifier:
         inputs = {}
         from . import models as _m
         eng.assume(_m.isnone_f(_m.none_val))
+        if con.options.get("eq_symmetric"):
+            a_, b_ = z3.Consts("ea!0 eb!0", _m.Val)
+            eng.assume(z3.ForAll([a_, b_], _m.pyeq_f(a_, b_) == _m.pyeq_f(b_, a_), patterns=[_m.pyeq_f(a_, b_)]))
         if con.options.get("total_order"):
             before = len(eng.pc)
             for ax in _m.total_order_axioms():
